@@ -24,6 +24,8 @@ CLAIMED = {
 
  "C18": ("reader loop as a TLA+ machine model-checked against a declarative outcome (all short-read / fault / EOF behaviours, scaled buffer); trace validation of hash_stream on scripted readers and hash_file on real files, hashes judged by L1", "5 C18"),
  "C19": ("rolling hash definition vs incremental machine and limb arithmetic by exhaustive TLC at scaled word size; trace validation of every prefix at real constants; complete 64x256 FNV table judged by TLC", "5 C19"),
+
+ "C14": ("one harness binary per build configuration (7 feature sets x debug assertions) runs the same seeded scenarios; every trace is validated by TLC against the one TLA+ specification (STRICT = TRUE for strict-parser) and the transcripts are compared event by event", "5 C14"),
 }
 LEVEL_TEXT = "model_checking: TLC explores the scaled design exhaustively (every input, history and size up to the scaled limit) and validates every recorded step of real executions against the same specification at real constants; results at real constants cover the executions explored, not all inputs"
 NOTE = "trusted: SANY/TLC 1.8.0 + CommunityModules, my transcription of the property into TLA+ (cross-checked by L1=L0, L2 refines L1), the harness recorders (serialisation only), rustc/cargo"
